@@ -231,26 +231,30 @@ def run(ctx):
     ns = cm.body_or_fail(ctx, p, "C12-R4", GV + "next_step")
     if ns is not None:
         eb = ExprBuilder(ns)
-        # the two definitions of next_g: the one containing dv must be under gv_switch[t] true
+        # the per-frame update direction has two definitions selected by gv_switch[t]: as polynomials
+        # (1/h kept as one opaque factor) their difference is the GV gradient term - every monomial
+        # carries gv_vari - and the switched-off definition has no gv_vari / gv_mean factor at all
         found = False
-        names = {d.get("name"): l for l, d in enumerate(ns.locals) if d.get("name")}
-        dv = show(eb.local(names["dv"])) if "dv" in names else None
+
+        def has_arg(mono, names):
+            return any(a[0] == "arg" and a[1] in names and ex > 0 for a, ex in mono)
         for l in range(len(ns.locals)):
             ds = [d for d in ns.defs().get(l, []) if not ns.is_cleanup(d[0])]
-            if len(ds) != 2 or dv is None:
+            if len(ds) != 2:
                 continue
-            vals = []
+            by = {}
             for d in ds:
-                e = eb.at(d[0], d[1]).rvalue(d[2]["rv"]) if d[1] != "term" else eb.call(d[2])
-                gsw = None
+                if d[1] == "term":
+                    continue
+                e = eb.at(d[0], d[1]).rvalue(d[2]["rv"])
                 for g in paths.guards(ns, d[0], eb):
                     if g[0] in ("true", "false") and "self.gv_switch" in show(g[1]):
-                        gsw = g[0]
-                vals.append((dv in show(e), gsw))
-            if sorted(vals, key=str) == sorted([(True, "true"), (False, "false")], key=str):
-                found = True
-        if dv is not None and not ("gv_vari" in dv and "gv_mean" in dv):
-            found = False
+                        by[g[0]] = to_poly(e)
+            if set(by) == {"true", "false"}:
+                delta = by["true"] - by["false"]
+                if delta.t and all(has_arg(m, ("gv_vari",)) for m in delta.t) and any(has_arg(m, ("gv_mean",)) for m in delta.t) \
+                        and not any(has_arg(m, ("gv_vari", "gv_mean")) for m in by["false"].t):
+                    found = True
         if found:
             ctx.ok("C12-R4", "next_step: the GV gradient term is added only where gv_switch[t] is true", ns.loc())
         else:
